@@ -461,6 +461,20 @@ pub fn gen_inter(rng: &mut Rng, cfg: &PicCfg, ic: &InterCfg) -> SymPicture {
 
 /// Picture-size chooser with classes: tiny, around macroblock multiples, mid, large.
 pub fn gen_size(rng: &mut Rng, max: usize) -> (usize, usize) {
+    // rare classes that cross large-dimension thresholds cheaply: thin strips (one dimension up to
+    // 4000, the other at most 16) and a few genuinely large pictures
+    if max >= 56 {
+        match rng.below(400) {
+            0..=7 => {
+                let long = *rng.pick(&[257usize, 511, 512, 513, 1023, 1024, 1025, 2047, 2048, 2049, 4000]) + rng.below(3) as usize;
+                let long = if rng.chance(1, 2) { long } else { 257 + rng.below(3800) as usize };
+                let short = 1 + rng.below(16) as usize;
+                return if rng.chance(1, 2) { (long, short) } else { (short, long) };
+            }
+            8 => return (300 + rng.below(800) as usize, 200 + rng.below(600) as usize),
+            _ => {}
+        }
+    }
     let one = |rng: &mut Rng| -> usize {
         let v = match rng.below(10) {
             0 => 1 + rng.below(3) as usize,
@@ -510,7 +524,7 @@ pub fn gen_flavour_and_size(rng: &mut Rng, max: usize, allow_large_fixed: bool) 
         }
         _ => {
             let (w, h) = gen_size(rng, max);
-            (Flavour::StdPlus, ((w + 3) / 4 * 4).max(4), ((h + 3) / 4 * 4).max(4))
+            (Flavour::StdPlus, ((w + 3) / 4 * 4).clamp(4, 2048), ((h + 3) / 4 * 4).clamp(4, 1152))
         }
     }
 }
